@@ -93,6 +93,57 @@ def p_named(x):
     return jnp.maximum(x, 0.1) * 3.0
 
 
+def _kw_body(x, gain, mode, axes, clip):
+    y = jnp.tanh(x)
+    if gain is not None:
+        y = y * gain
+    if mode == "square":
+        y = y * y
+    elif mode is None:
+        y = y + 0.5
+    if axes is not None:
+        y = y - jnp.mean(y, axis=axes, keepdims=True)
+    if clip:
+        y = jnp.clip(y, -0.5, 0.5)
+    return y
+
+
+@onnx_function
+def f_kw(x, *, gain=2.0, mode="plain", axes=None, clip=False):
+    return _kw_body(x, gain, mode, axes, clip)
+
+
+def p_kw(x, *, gain=2.0, mode="plain", axes=None, clip=False):
+    return _kw_body(x, gain, mode, axes, clip)
+
+
+@onnx_function(unique=True)
+def f_kw_unique(x, *, gain=2.0, mode="plain", axes=None, clip=False):
+    return _kw_body(x, gain, mode, axes, clip)
+
+
+@onnx_function
+def f_kw_positional(x, gain=2.0, mode="plain"):
+    return _kw_body(x, gain, mode, None, False)
+
+
+def p_kw_positional(x, gain=2.0, mode="plain"):
+    return _kw_body(x, gain, mode, None, False)
+
+
+class PKwModule(nnx.Module):
+    def __init__(self, bias: float = 0.25):
+        self.bias = bias
+
+    def __call__(self, x, *, gain=2.0, mode="plain", axes=None, clip=False):
+        return _kw_body(x, gain, mode, axes, clip) + self.bias
+
+
+@onnx_function
+class DKwModule(PKwModule):
+    pass
+
+
 @onnx_function
 def f_with_flag(x, deterministic=True):
     return jnp.where(deterministic, x * 2.0, x * 0.0)
@@ -317,6 +368,12 @@ def programs(dec: bool) -> dict[str, dict]:
     P["module_static_field_differs_equal_weights"] = {"fn": lambda x: tn2(tn1(x)), "shapes": X}
     st = NS(rngs=nnx.Rngs(2))
     P["nnx_nested_modules"] = {"fn": lambda x: st(x) * 0.5, "shapes": X}
+    for tag, KW in (("fn", late("f_kw", "p_kw")), ("unique_fn", late("f_kw_unique", "p_kw")), ("module", (DKwModule if dec else PKwModule)(0.25))):
+        P[f"kw_{tag}_none_vs_default"] = {"fn": (lambda KW: lambda x: KW(x) + KW(x, gain=None))(KW), "shapes": X}
+        P[f"kw_{tag}_none_only"] = {"fn": (lambda KW: lambda x: KW(x, gain=None) + 1.0)(KW), "shapes": X}
+        P[f"kw_{tag}_values_differ"] = {"fn": (lambda KW: lambda x: KW(x, gain=3.0) - KW(x, gain=0.5) + KW(x, gain=2.0))(KW), "shapes": X}
+        P[f"kw_{tag}_float_kwargs_reordered"] = {"fn": (lambda KW: lambda x: KW(x, gain=3.0) - KW(x, gain=None, mode=None) + KW(x, mode=None, gain=0.5))(KW), "shapes": X}
+        P[f"kw_{tag}_all_none"] = {"fn": (lambda KW: lambda x: KW(x, gain=None, mode=None, axes=None, clip=None) * 2.0)(KW), "shapes": X}
     P["function_and_module_mixed"] = {"fn": lambda x: S(n1(x)) + a1(x), "shapes": X}
     P["layout_flags"] = {"fn": lambda x: S(x) + LEAF(x), "shapes": [(2, 3, 3, 3)], "kw": {"inputs_as_nchw": [0], "outputs_as_nchw": [0]}}
     return P
